@@ -74,10 +74,6 @@ Ext(f) == LET b == Basename(f) k == LastIndexOf(b, ".") IN IF k = 0 THEN <<>> EL
 
 Documented == {<<".", "c", "p", "p">>, <<".", "c", "x", "x">>, <<".", "c", "c">>, <<".", "c", "+", "+">>, <<".", "c">>,
                <<".", "i", "p", "p">>, <<".", "i", "x", "x">>, <<".", "t", "p", "p">>, <<".", "t", "x", "x">>}
-Lower(c) == LET up == <<"A","B","C","D","E","F","G","H","I","J","K","L","M","N","O","P","Q","R","S","T","U","V","W","X","Y","Z">>
-                lo == <<"a","b","c","d","e","f","g","h","i","j","k","l","m","n","o","p","q","r","s","t","u","v","w","x","y","z">>
-            IN IF \E i \in DOMAIN up : up[i] = c THEN lo[CHOOSE i \in DOMAIN up : up[i] = c] ELSE c
-LowerStr(s) == [i \in DOMAIN s |-> Lower(s[i])]
 \* "yes": a documented source extension; "open": accepted by the implementation without being documented
 \* (another letter case of a documented one, .cl); "no": anything else, in particular headers
 ExtStatus(f) ==
